@@ -67,7 +67,7 @@ def shape(t, body, depth=0, limit=14):
     if tag == "adt":
         return "%s::%s{%s}" % (t[1].split("::")[-1], t[2], ",".join("%s:%s" % (n, S(v)) for n, v in t[3]))
     if tag == "closure":
-        return "closure{%s}" % ",".join(S(v) for n, v in t[2])
+        return "closure{%s}" % ",".join(sorted(S(v) for n, v in t[2]))   # capture order follows first use: not significant
     if tag == "update":
         return "%s{..=%s}" % (S(t[1]), S(t[3]))
     if tag in ("ovf", "ovfflag"):
